@@ -208,6 +208,9 @@ func (ctrler *GovCtrler) ValidateTrx(ctx *ctrlertypes.TrxContext) xerrors.XError
 				if checkGovParams.MaxValidatorCnt() < 0 {
 					return xerrors.ErrInvalidTrxPayloadParams.Wrapf("wrong maxValidatorCnt: %v", checkGovParams.MaxValidatorCnt())
 				}
+				if r := checkGovParams.SlashRatio(); r < 0 || r > 100 {
+					return xerrors.ErrInvalidTrxPayloadParams.Wrapf("wrong slashRatio: %v", r)
+				}
 				maxStake := ctrlertypes.PowerToAmount(math.MaxInt64)
 				if v := checkGovParams.MinValidatorStake(); v != nil && v.Cmp(maxStake) > 0 {
 					return xerrors.ErrInvalidTrxPayloadParams.Wrapf("too large minValidatorStake")
